@@ -259,11 +259,54 @@ theorem abort_is_first_failing_chunk (ops : IOps σ) (w : Wrap σ) (src : List B
   simp at h1
   omega
 
+/-- `_process_chunk` never changes which format is expected, nor the finished flag -/
+theorem processChunk_keeps_expected (ops : IOps σ) (w : Wrap σ) (chunk : Bytes) :
+    (w.processChunk ops chunk).1.expected = w.expected ∧
+    (w.processChunk ops chunk).1.finished = w.finished := by
+  simp [Wrap.processChunk]
+
+theorem lemma_pipe_total (ops : IOps σ) (hn : NameStable ops) : ∀ (src : List Bytes) (w : Wrap σ)
+    (out : List Bytes), w.expected = none →
+    (Wrap.pipe ops w src out).1 = out.reverse ++ src ∧ (Wrap.pipe ops w src out).2.2 = .done ∧
+    (Wrap.pipe ops w src out).2.1.finished = true := by
+  intro src
+  induction src with
+  | nil => intro w out _; simp [Wrap.pipe, Wrap.finish]
+  | cons c cs ih =>
+    intro w out h
+    have hd := nonexpected_fault_contained ops hn w c h
+    have he := (processChunk_keeps_expected ops w c).1
+    cases hpc : w.processChunk ops c with
+    | mk w' o =>
+      rw [hpc] at hd he
+      simp only at hd he
+      subst hd
+      simp only [Wrap.pipe, hpc]
+      obtain ⟨a, b, d⟩ := ih w' (c :: out) (he.trans h)
+      exact ⟨by simp [a], b, d⟩
+
+/-- **pipe_total_without_expected** — a wrapper without an expected format is a total, transparent
+    pipe: for every source and every inspector behaviour (faults of any kind, in any inspectors, at
+    any chunks) the reader receives exactly the source's chunks, all of them, in order; the stream
+    ends normally and the wrapper ends up finished (closed) -/
+theorem pipe_total_without_expected (ops : IOps σ) (hn : NameStable ops) (w : Wrap σ) (src : List Bytes)
+    (h : w.expected = none) :
+    (Wrap.pipe ops w src []).1 = src ∧ (Wrap.pipe ops w src []).2.2 = .done ∧
+    (Wrap.pipe ops w src []).2.1.finished = true := by
+  simpa using lemma_pipe_total ops hn src w [] h
+
 /-- the real inspectors never change their name, so the theorems apply to them -/
 theorem realOps_nameStable : NameStable realOps := by
   intro i c
   show (eatChunk i c).1.fmt.name = i.fmt.name
   rw [lemma_eatChunk_fmt]
+
+/-- … in particular for the real inspectors, whatever the bytes are and however they are chunked -/
+theorem pipe_total_real (allowed : List String) (src : List Bytes) :
+    (Wrap.pipe realOps (Wrap.mk' none allowed) src []).1 = src ∧
+    (Wrap.pipe realOps (Wrap.mk' none allowed) src []).2.2 = .done :=
+  have h := pipe_total_without_expected realOps realOps_nameStable (Wrap.mk' none allowed) src rfl
+  ⟨h.1, h.2.1⟩
 
 /-! non-vacuity: a three-chunk stream through a wrapper expecting qcow2 is cut at the chunk that
     completes the (non-matching) qcow2 header; the reader has received exactly the chunks before it -/
